@@ -5,6 +5,7 @@ base = json.load(open("/root/.vp/BASELINE.json"))
 out = tempfile.mktemp(suffix=".xml", prefix="baseline-")
 env = dict(os.environ); env.pop("DATAITER_VERIF", None)
 env["NUMBA_CACHE_DIR"] = tempfile.mkdtemp(prefix="nbcache-")
+env["TMPDIR"] = tempfile.mkdtemp(prefix="suite-tmp-")      # the suite leaves ~35 MB of temp files behind per run
 cmd = base["cmd"].replace("<file>", out)
 subprocess.run(cmd, shell=True, env=env, stdout=subprocess.DEVNULL, stderr=subprocess.DEVNULL)
 passed = set()
@@ -16,5 +17,5 @@ missing = sorted(want - passed)
 print(f"baseline: {len(want & passed)}/{len(want)} stable tests pass; newly failing: {len(missing)}")
 for m in missing[:20]: print("  FAIL", m)
 os.remove(out)
-import shutil; shutil.rmtree(env["NUMBA_CACHE_DIR"], ignore_errors=True)
+import shutil; shutil.rmtree(env["NUMBA_CACHE_DIR"], ignore_errors=True); shutil.rmtree(env["TMPDIR"], ignore_errors=True)
 sys.exit(1 if missing else 0)
